@@ -1223,17 +1223,15 @@ impl HelperAttributeKinds {
         }
     }
     fn is_match_cmp_attr(&self, op: CompareOp) -> bool {
+        // A helper attribute is recognized if it affects any of the traits being derived.
+        // (See the table in "Derive `Ord`, `PartialOrd`, `Eq`, `PartialEq`, `Hash`".)
         match op {
             CompareOp::Ord => {
-                self.ord
-                    || self.is_match_cmp_attr(CompareOp::PartialEq)
-                    || self.is_match_cmp_attr(CompareOp::Eq)
+                self.ord || self.partial_ord || self.eq || self.partial_eq || self.hash
             }
-            CompareOp::PartialOrd => {
-                self.partial_ord || self.is_match_cmp_attr(CompareOp::PartialEq)
-            }
-            CompareOp::Eq => self.eq || self.is_match_cmp_attr(CompareOp::PartialEq),
-            CompareOp::PartialEq => self.partial_eq,
+            CompareOp::PartialOrd => self.partial_ord || self.partial_eq,
+            CompareOp::Eq => self.eq || self.partial_eq || self.hash,
+            CompareOp::PartialEq => self.partial_eq || self.eq,
             CompareOp::Hash => self.hash,
         }
     }
